@@ -158,3 +158,18 @@ pub fn prop_frame(bytes: &[u8]) -> String {
         }
     }
 }
+
+pub fn dispatch_impl(toks: &[&str]) -> Option<String> {
+    match toks {
+        ["frame", hex] => Some(impl_frame(&crate::util::unhex(hex))),
+        ["framesched", evs @ ..] => Some(impl_framesched(evs)),
+        _ => None,
+    }
+}
+
+pub fn dispatch_prop(toks: &[&str]) -> Option<String> {
+    match toks {
+        ["frame", hex] => Some(prop_frame(&crate::util::unhex(hex))),
+        _ => None,
+    }
+}
